@@ -7,8 +7,12 @@
   does with the registries: `merge_resolvers` (fresh inner dicts — the code of /repo) or `dict.update` of the outer map
   (inner dicts SHARED with the source). Which one is `Cfg.cloneRegsDeep`, re-extracted from schema.py on every run.
 
+  Which entries `clone` carries over and how (`Cfg.cloneRegsFiltered`: only those that still name a field of the clone, T5;
+  `Cfg.cloneRegsByValue`: copied, or replayed through `Schema.register_resolver`, which raises when the field carries another
+  resolver, T6) and whether `extend_schema` carries them at all (`Cfg.extKeepRegs`, T8): `cloneRegsOn`, `extendRegs`.
+
   Not modelled here: `Schema.register_*` also assign `field.resolver` / `default_resolver` on the type objects (object heap,
-  `Heap.lean`) and raise for unknown types / fields; `allow_override` conflicts (`ValueError`) — registrations overwrite.
+  `Heap.lean`); registrations on a derived schema are made with `allow_override` (they overwrite).
 -/
 import PyGqlModel.Heap
 
@@ -71,34 +75,70 @@ def applyOp (s : RHeap × Registries) : RegOp → RHeap × Registries
 
 def applyOps (ops : List RegOp) (s : RHeap × Registries) : RHeap × Registries := ops.foldl applyOp s
 
-/-- the inner loop of `merge_resolvers`: every `(field, resolver)` of one inner dict is registered under `t` -/
-def mergeDict (t : String) : RDict → RHeap → List (String × Addr) → RHeap × List (String × Addr)
+/-- the inner loop of `merge_resolvers` (through `_registered` when filtering): every `(field, resolver)` of one inner dict
+    for which `keep t field` holds is registered under `t` -/
+def mergeDict (keep : String → String → Bool) (t : String) : RDict → RHeap → List (String × Addr) → RHeap × List (String × Addr)
   | [], h, outer => (h, outer)
   | (f, fn) :: rest, h, outer =>
-    let r := registerIn h outer t f fn
-    mergeDict t rest r.1 r.2
+    if keep t f then
+      let r := registerIn h outer t f fn
+      mergeDict keep t rest r.1 r.2
+    else mergeDict keep t rest h outer
 
 /-- the outer loop of `merge_resolvers` over `other.resolvers.items()` (the other map's dicts live in the same heap) -/
-def mergeOuter : List (String × Addr) → RHeap → List (String × Addr) → RHeap × List (String × Addr)
+def mergeOuter (keep : String → String → Bool) : List (String × Addr) → RHeap → List (String × Addr) → RHeap × List (String × Addr)
   | [], h, outer => (h, outer)
   | (t, a) :: rest, h, outer =>
     match h.read a with
     | some d =>
-      let r := mergeDict t d h outer
-      mergeOuter rest r.1 r.2
-    | none => mergeOuter rest h outer
+      let r := mergeDict keep t d h outer
+      mergeOuter keep rest r.1 r.2
+    | none => mergeOuter keep rest h outer
 
-/-- what `Schema.clone` does with the registries of `src` -/
-def cloneRegs (deep : Bool) (h : RHeap) (src : Registries) : RHeap × Registries :=
+/-- every entry of the registry names a field that exists (`fieldname in type_.field_map`) -/
+def allApplicable (exists_ : String → String → Bool) (h : RHeap) (outer : List (String × Addr)) : Bool :=
+  outer.all fun e => match h.read e.2 with | some d => d.all (fun x => exists_ e.1 x.1) | none => true
+
+/-- what `Schema.clone` does with the registries of `src`; `exists_ t f`: the clone has an object type `t` with a field `f`.
+    `none`: `SchemaError` (unfiltered replay of an entry naming a field that does not exist) -/
+def cloneRegs (deep filtered : Bool) (exists_ : String → String → Bool) (h : RHeap) (src : Registries) : Option (RHeap × Registries) :=
   if deep then
-    -- `cloned.merge_resolvers(self)`; `default_resolver` copied; `default_resolvers.update(...)`
-    let r1 := mergeOuter src.resolvers h []
-    let r2 := mergeOuter src.subscriptions r1.1 []
-    (r2.1, { resolvers := r1.2, subscriptions := r2.2, defaultResolvers := src.defaultResolvers, defaultResolver := src.defaultResolver })
+    if !filtered && !(allApplicable exists_ h src.resolvers && allApplicable exists_ h src.subscriptions) then none
+    else
+      -- `cloned.merge_resolvers(...)`; `default_resolver` copied; `default_resolvers.update(...)`
+      let keep := if filtered then exists_ else fun _ _ => true
+      let r1 := mergeOuter keep src.resolvers h []
+      let r2 := mergeOuter keep src.subscriptions r1.1 []
+      some (r2.1, { resolvers := r1.2, subscriptions := r2.2, defaultResolvers := src.defaultResolvers, defaultResolver := src.defaultResolver })
   else
     -- `cloned.resolvers.update(self.resolvers)`: the OUTER map is copied, the inner dicts are the source's
-    (h, { resolvers := src.resolvers, subscriptions := src.subscriptions, defaultResolvers := src.defaultResolvers,
-          defaultResolver := src.defaultResolver })
+    some (h, { resolvers := src.resolvers, subscriptions := src.subscriptions, defaultResolvers := src.defaultResolvers,
+               defaultResolver := src.defaultResolver })
+
+/-- the resolver / subscription resolver the FIELD objects of the clone carry (by type and field name) -/
+structure FieldFns where
+  resolver : String → String → Option Nat
+  subscription : String → String → Option Nat
+
+/-- replaying an entry through `Schema.register_resolver` (no `allow_override`) raises `ValueError` when the field already
+    carries a different resolver — e.g. one wrapped by a schema directive after the registration -/
+def replayConflicts (keep : String → String → Bool) (fieldFn : String → String → Option Nat) (h : RHeap)
+    (outer : List (String × Addr)) : Bool :=
+  outer.any fun e => match h.read e.2 with
+    | some d => d.any fun x => keep e.1 x.1 && (match fieldFn e.1 x.1 with | some g => g != x.2 | none => false)
+    | none => false
+
+/-- what `Schema.clone` does with the registries in the variant `c` (`none`: it raises) -/
+def cloneRegsOn (c : Cfg) (exists_ : String → String → Bool) (ff : FieldFns) (h : RHeap) (src : Registries) : Option (RHeap × Registries) :=
+  let keep := if c.cloneRegsFiltered then exists_ else fun _ _ => true
+  if c.cloneRegsDeep && !c.cloneRegsByValue &&
+      (replayConflicts keep ff.resolver h src.resolvers || replayConflicts keep ff.subscription h src.subscriptions) then none
+  else cloneRegs c.cloneRegsDeep c.cloneRegsFiltered exists_ h src
+
+/-- what `extend_schema` does with the registries in the variant `c` (`exists_`: the fields of the extended schema) -/
+def extendRegs (c : Cfg) (exists_ : String → String → Bool) (h : RHeap) (src : Registries) : Option (RHeap × Registries) :=
+  if c.extKeepRegs then cloneRegs true true exists_ h src
+  else some (h, { resolvers := [], subscriptions := [], defaultResolvers := src.defaultResolvers, defaultResolver := if c.extSchemaDres then src.defaultResolver else none })
 
 /-- what the public API shows of a registry: outer keys, inner keys, resolver identities -/
 def digestOuter (h : RHeap) (outer : List (String × Addr)) : List (String × Option RDict) := outer.map fun e => (e.1, h.read e.2)
